@@ -358,7 +358,9 @@ func c19flightRun(c *vt.Ctx, f c19flight, obs *c19obs) {
 	}
 	peer.Bubble(c, ctrl, func() {
 		log := peer.NewLog()
-		c.Attach(func() any { return map[string]any{"scenario": what, "hook_trace": obs.keys(), "handler_log": log.Dump()} })
+		c.Attach(func() any {
+			return map[string]any{"scenario": what, "hook_trace": obs.keys(), "handler_log": log.Dump()}
+		})
 		H := peer.NewHandlers(log)
 		obs.holdCh = make(chan struct{})
 		bridge := jhttp.NewBridge(H, nil)
@@ -513,7 +515,9 @@ func c19rawRun(c *vt.Ctx, k, r, notes int, obs *c19obs) {
 	what := fmt.Sprintf("raw channel: %d requests sent, %d responses received, %d notifications, then Close", k, r, notes)
 	peer.Bubble(c, ctrl, func() {
 		log := peer.NewLog()
-		c.Attach(func() any { return map[string]any{"scenario": what, "hook_trace": obs.keys(), "handler_log": log.Dump()} })
+		c.Attach(func() any {
+			return map[string]any{"scenario": what, "hook_trace": obs.keys(), "handler_log": log.Dump()}
+		})
 		H := peer.NewHandlers(log)
 		bridge := jhttp.NewBridge(H, nil)
 		inp := &c19inproc{h: bridge}
